@@ -8,7 +8,7 @@ PROPERTY = "C07"
 BUDGET = {"quick": 900, "thorough": 3000}
 namespaces = common.namespaces
 real_namespace = common.real_namespace
-GOALS = ["percent-escape decoded", "invalid escape left alone", "url_prefix split applied", "repeated field joined", "underscore name dropped",
+GOALS = ["body read back after the spill to a temporary file", "percent-escape decoded", "invalid escape left alone", "url_prefix split applied", "repeated field joined", "underscore name dropped",
          "chunked body with CONTENT_LENGTH", "cgi-looking header kept under HTTP_ prefix", "near-miss of url_prefix"]
 ASSUMPTIONS = [
     "canonically well-formed requests: streams the RFC reference refuses, leaves incomplete or marks convention-dependent are skipped (they are C01/C06)",
@@ -31,7 +31,10 @@ def BOUNDS(tier):
     return ("%d request skeletons (origin / absolute / asterisk targets, %%XX valid and invalid, repeated / underscore / CGI-looking field names, "
             "obs-text values, CL and chunked bodies, HTTP/1.0 and no version) with a %d-byte symbolic window substituted and inserted at every "
             "position; url_prefix in %r, url_scheme http/https, TCP and unix peer; the key-by-key comparison covers every header-derived key "
-            "and the 13 request/server variables." % (len(SK), 1 if tier == "quick" else 2, PREFIXES))
+            "and the 13 request/server variables.  BIG: Content-Length and chunked bodies of 8100..20290 bytes (symbolic first / last byte of each of "
+            "three parts, concrete filler) arriving in three reads, with inbuf_overflow in {8300, 9000, 20000%s}: the body crosses the string, BytesIO "
+            "and temporary-file stages at different reads; wsgi.input and CONTENT_LENGTH as above."
+            % (len(SK), 1 if tier == "quick" else 2, PREFIXES, "" if tier == "quick" else ", 524288"))
 
 
 def jobs(tier):
@@ -42,6 +45,10 @@ def jobs(tier):
             pos = streams.window_positions(sk, w, mode)
             for i in range(0, len(pos), 6):
                 js.append(dict(name="F1:%s:%s:w%d:%d" % (nm, mode, w, pos[i]), sk=nm, mode=mode, w=w, positions=pos[i:i + 6]))
+    # BIG: bodies that cross the string -> BytesIO -> temporary-file stages of the request-body buffer while they arrive in three reads
+    for kind in ("cl", "chunked"):
+        for ov in (8300, 9000, 20000) + ((524288,) if tier == "thorough" else ()):
+            js.append(dict(name="BIG:%s:ov%d" % (kind, ov), fam="BIG", kind=kind, overflow=ov))
     if tier == "thorough":
         w = 2
         for nm in ("origin", "cgi", "chunked", "absolute"):
@@ -52,8 +59,41 @@ def jobs(tier):
     return js
 
 
+def _filler(n, off):
+    return bytes(((i + off) * 7 + 3) % 251 for i in range(n))
+
+
+def _big_inputs(job, eng):
+    s1 = (8100, 8250)[eng.choose(2, "s1")]
+    s2 = (60, 900, 12000)[eng.choose(3, "s2")]
+    s3 = (0, 40)[eng.choose(2, "s3")]
+    parts = []
+    off = 0
+    for k, n in enumerate((s1, s2, s3)):
+        if n:
+            # symbolic first and last byte of every part, concrete filler in between
+            body = SymBytes.fresh(1, "b%da" % k) + _filler(n - 2, off) + SymBytes.fresh(1, "b%dz" % k) if n >= 2 else SymBytes.fresh(n, "b%d" % k)
+        else:
+            body = b""
+        parts.append(body)
+        off += n
+    total = s1 + s2 + s3
+    if job["kind"] == "cl":
+        head = b"POST /p HTTP/1.1\r\nContent-Length: %d\r\n\r\n" % total
+        segs = [head + parts[0], parts[1], parts[2]]
+    else:
+        head = b"POST /p HTTP/1.1\r\n" + streams.CH + b"\r\n"
+        enc = [(b"%x\r\n" % len(p)) + p + b"\r\n" if len(p) else b"" for p in parts]
+        segs = [head + enc[0], enc[1], enc[2] + b"0\r\n\r\n"]
+    stream = segs[0] + segs[1] + segs[2]
+    cuts = [len(segs[0]), len(segs[0]) + len(segs[1])]
+    return dict(stream=stream, cuts=cuts, inbuf_overflow=job["overflow"], url_prefix="", url_scheme="http", unix=False)
+
+
 def make_inputs(job):
     eng = E()
+    if job.get("fam") == "BIG":
+        return _big_inputs(job, eng)
     sk = SK[job["sk"]]
     positions = job["positions"]
     pos = positions[eng.choose(len(positions), "pos")]
@@ -70,13 +110,18 @@ def _cfg(inp):
 
 def scenario(ns, inp):
     cfg = _cfg(inp)
-    adj = common.make_adj(ns, url_prefix=cfg["url_prefix"], url_scheme=cfg["url_scheme"], server_name=cfg["server_name"])
+    kw = dict(inbuf_overflow=inp["inbuf_overflow"]) if "inbuf_overflow" in inp else {}
+    adj = common.make_adj(ns, url_prefix=cfg["url_prefix"], url_scheme=cfg["url_scheme"], server_name=cfg["server_name"], **kw)
     app = common.RecordingApp()
     ch, srv, sock = common.new_channel(ns, adj, app, addr=cfg["peer"])
     srv.server_name = cfg["server_name"]
     exc = None
     try:
-        ch.received(inp["stream"])
+        last = 0
+        for c in list(inp.get("cuts", ())) + [len(inp["stream"])]:
+            if c > last:
+                ch.received(inp["stream"][last:c])
+            last = c
         srv.task_dispatcher.run_all()
     except Exception as e:  # noqa
         exc = type(e).__name__
@@ -160,6 +205,10 @@ def normalize(obs):
 def goals(cin, cobs):
     out = []
     s = cin["stream"]
+    if "inbuf_overflow" in cin:
+        if cobs["envs"] and len(cobs["envs"][0]["body"]) >= cin["inbuf_overflow"]:
+            out.append("body read back after the spill to a temporary file")
+        return out
     for e in cobs["envs"]:
         d = dict(e["items"])
         if "%41" in d.get("REQUEST_URI", "") and "A" in d.get("PATH_INFO", ""):
